@@ -76,14 +76,17 @@ Lemma x_on_packet_ext s j b : x_reg s = true -> 0 <= j < 65536 ->
 Proof.
   intros Hreg Hj. unfold x_on_packet. rewrite Hreg. cbn [negb]. change (3 =? 3) with true. cbn [negb].
   unfold ext_req. cbn [le_bytes app tl firstn List.length nth_error].
+  change (2 =? 2) with true. cbn [negb].
   change (2 <? 2)%nat with false. cbn [le_val].
   replace (j mod 256 + 256 * ((j / 256) mod 256 + 256 * 0)) with j by lia. reflexivity.
 Qed.
 
-Lemma x_on_packet_other s ch dt : ch <> 3 -> x_on_packet s ch dt = (s, []).
+Lemma x_on_packet_other s ch dt : not_ext_reply ch dt -> x_on_packet s ch dt = (s, []).
 Proof.
   intros H. unfold x_on_packet. destruct (x_reg s); [|reflexivity]. cbn [negb].
-  destruct (ch =? 3) eqn:E; [lia|reflexivity].
+  destruct (ch =? 3) eqn:E; [|reflexivity]. cbn [negb].
+  destruct H as [H|(cmd & rest & -> & Hc)]; [lia|].
+  destruct (cmd =? 2) eqn:E2; [lia|reflexivity].
 Qed.
 
 (* ---------------------------------------------------------------- the invariant *)
@@ -160,7 +163,7 @@ Section Ext.
   Qed.
 
   Lemma XInv_step s o ev :
-    XInv s o -> (match ev with Deliver _ => True | Raw ch _ => ch <> 3 end) ->
+    XInv s o -> (match ev with Deliver _ => True | Raw ch dt => not_ext_reply ch dt end) ->
     match xpacket_of d o ev with
     | None => True
     | Some (ch, dt) => let '(s', o') := x_on_packet s ch dt in XInv s' (o ++ Got ch dt :: o')
